@@ -7,6 +7,7 @@ keys and recording SSHClient/SSHServer owners.
 import hashlib
 import json
 import os
+import sys
 
 from . import seams, taps
 from .sim import Sim
@@ -50,11 +51,33 @@ def plan_digest(plan):
                                      default=str).encode()).hexdigest()[:16]
 
 
+_current_world = [None]
+_orig_internal_error = asyncssh.connection.SSHConnection.internal_error
+
+
+def _internal_error(self, exc_info=None, error_logger=None):
+    """Observe SSHConnection.internal_error (the place where asyncssh turns
+       an unexpected exception into closing the connection)"""
+
+    world = _current_world[0]
+
+    if world is not None and not world.closed:
+        exc = (exc_info or sys.exc_info())[1]
+        world.internal_errors.append(repr(exc)[:300])
+
+    return _orig_internal_error(self, exc_info, error_logger)
+
+
+asyncssh.connection.SSHConnection.internal_error = _internal_error
+
+
 class World:
     """One run"""
 
     def __init__(self, plan, sched_seed=None, sched_replay=None):
         self.plan = plan
+        self.internal_errors = []
+        _current_world[0] = self
         profile = dict(plan.get('profile', {}))
         self.sim = sim = Sim(sched_seed, sched_replay, profile)
         seams.enter(sim, str(plan.get('drbg', 0)))
@@ -158,8 +181,18 @@ class World:
 
     # -- result -------------------------------------------------------------------
 
-    def check_loop_health(self, allow_hang=False, loop_errors=True):
+    def check_loop_health(self, allow_hang=False, loop_errors=True,
+                          internal_errors=False):
         sim = self.sim
+
+        if internal_errors and self.internal_errors:
+            # for populations in which every endpoint is unmodified asyncssh
+            # behaving legally: an exception that escaped inside the library
+            # and was turned into "close this connection" takes every
+            # channel on it down
+            self.violation('internal-error', 'a connection was closed by '
+                           'an internal error: %s' % self.internal_errors[0],
+                           sig=self.internal_errors[0].split('(')[0])
 
         if sim.loop.capped:
             self.violation('no-quiescence',
